@@ -225,7 +225,7 @@ def show(e, depth=0):
     if k == "repeat":
         return "[%s; _]" % show(e[1])
     if k == "path":
-        return ".".join((e[1],) + e[2])
+        return ".".join((str(e[1]),) + tuple(str(x) for x in e[2]))
     if k == "var":
         return e[1]
     if k == "call":
